@@ -216,10 +216,10 @@ func simCampaign(prop string, enable func(*Monitors), clients bool) vk.Campaign 
 				}
 			}
 			for k, rs := range Rulesets[:2] {
-				for variant := 0; variant < 10; variant++ {
-					if p.Mine(600 + 10*k + variant) {
+				for variant := 0; variant < 12; variant++ {
+					if p.Mine(600 + 12*k + variant) {
 						if c := RunPrivateBranch(variant, rs, vbase.NewRng(p.Seed, "private-branch", rs, variant), r, enable); c != nil {
-							finish(c, c.Cfg.String()+" "+c.Cfg.Label, -2400-10*k-variant, "directed")
+							finish(c, c.Cfg.String()+" "+c.Cfg.Label, -2400-12*k-variant, "directed")
 						}
 					}
 				}
